@@ -145,6 +145,12 @@ def build_rep(kind, o, rep):
             s.move(w)
             s.move(-w)
             return s
+        if form == "parametric":
+            # "Returns (start_point, end_point) so that you can build the information for the segment"
+            return G.Segment(*G.Segment(B.pt(a, ct), B.pt(b, ct)).parametric())
+        if form == "items":
+            s = G.Segment(B.pt(a, ct), B.vec(X.sub(b, a), ct))
+            return G.Segment(s[1], s[0])
     if kind == "H":
         form, k = rep[0], rep[1]
         d = X.mul(k, o[2])
@@ -158,6 +164,8 @@ def build_rep(kind, o, rep):
             h.move(w)
             h.move(-w)
             return h
+        if form == "parametric":
+            return G.HalfLine(*G.HalfLine(B.pt(o[1], ct), B.pt(X.add(o[1], d), ct)).parametric())
     if kind == "G":
         form, order = rep[0], rep[1]
         g = PC.build_polygon(o[1], order, ct)
@@ -303,13 +311,13 @@ def rep_for(draw, kind, o):
             return (form, ij, k, draw(gen.direction(3)), ct)
         return (form, ij, k, ct)
     if kind == "S":
-        form = draw(st.sampled_from(("pp", "pv", "moved")))
+        form = draw(st.sampled_from(("pp", "pv", "moved", "parametric", "items")))
         sw = draw(st.booleans())
         if form == "moved":
             return (form, sw, draw(gen.direction(3)), ct)
         return (form, sw, ct)
     if kind == "H":
-        form = draw(st.sampled_from(("pv", "pp", "moved")))
+        form = draw(st.sampled_from(("pv", "pp", "moved", "parametric")))
         k = draw(st.sampled_from((F(1), F(2), F(3), F(1, 2), F(1, 4), F(5))))
         if form == "moved":
             return (form, k, draw(gen.direction(3)), ct)
